@@ -27,6 +27,7 @@ def decl_specs(tier):
         specs.append({'P': P, 'tag': 'wide-bits'})
         P = ir.PKT('K', [('h', ir.I(1))] + [('b%d' % i, ir.B(w)) for i, w in enumerate(widths)], generate_for_unpack=False)
         specs.append({'P': P, 'tag': 'wide-bits'})
+    specs.extend(alphabet.families())
     return specs
 
 
